@@ -17,7 +17,7 @@ import (
 	"wvh/hlib"
 )
 
-//go:embed c09drv.c
+//go:embed csrc/c09drv.c
 var drvSource string
 
 // flavour = one way of compiling the same regenerated snapshot.
